@@ -156,9 +156,10 @@ int main(int argc, char** argv) {
   for (long it = 0; it < count; it++) {
     try {
       Problem P; bool nozero = false, wide = false;
-      int fam = r.below(112);
+      int fam = r.below(118);
       bool ok;
-      if (fam >= 106) { ok = make_domain(r, P); wide = true; }      // restricted domain of definition (midpoints outside the domain)
+      if (fam >= 112) ok = make_quot(r, P);                           // quotient with a non-constant denominator independent of the variable
+      else if (fam >= 106) { ok = make_domain(r, P); wide = true; }      // restricted domain of definition (midpoints outside the domain)
       else if (fam >= 100) { ok = make_pole(r, P); wide = true; }   // a pole between two zeros
       else if (fam < 38) ok = make_problem(r, P);
       else if (fam < 62) ok = make_multi(r, P);
